@@ -37,6 +37,7 @@ type c18Scn struct {
 	Segs        []string `json:"segs"`
 	NextTimeout []bool   `json:"nexttimeout"`
 	Seg         string   `json:"seg,omitempty"`
+	Mute        bool     `json:"mute"`
 }
 
 var c18Segs = map[string]string{
@@ -68,6 +69,10 @@ func c18Run(s *c18Scn, segName string, enc *json.Encoder, mu *sync.Mutex) verdic
 		lineNo++
 
 		if lineNo <= len(s.Segs) {
+			if lineNo == len(s.Segs) && s.Mute {
+				c.Mute = true // after its last piece of output the device says nothing more, whatever it is sent
+			}
+
 			return c18Segs[s.Segs[lineNo-1]]
 		}
 
